@@ -454,6 +454,38 @@ def case_blq(m, spec, eq, rec):
     rec('blq.below_lloq_likelihood', V(v), **(dict(info, got=str(got)[:300], documented=str(want)[:300]) if v != 'equal' else {}))
 
 
+def case_blq_power(m, spec, eq, rec):
+    """Extensions compose: a power on the residual error applied to a model that already has the BLQ transformation
+    (M3/M4) must give, for observations at or above LLOQ, the observation function of the same power model without
+    the BLQ transformation (transform_blq leaves those observations alone; set_power_on_ruv scales each epsilon by
+    f**theta).  `pre`: the error model is first set by a setter (proportional: written through the zero-protection
+    guard IPREDADJ) or left as the control stream has it (pheno_real: W = F; Y = F + W*EPS)."""
+    sympy, pm, semeq = _W['sympy'], _W['pm'], _W['semeq']
+    method, lloq, pre, blq_first = spec
+    if pre == 'proportional':
+        m = pm.set_proportional_error_model(m)
+    elif pre == 'combined':
+        m = pm.set_combined_error_model(m)
+    if blq_first:
+        mb = pm.set_power_on_ruv(pm.transform_blq(m, method=method, lloq=lloq))
+    else:
+        mb = pm.transform_blq(pm.set_power_on_ruv(m), method=method, lloq=lloq)
+    mp = pm.set_power_on_ruv(m)
+    db, dp = semeq.denote(mb.statements), semeq.denote(mp.statements)
+    y = sympy.Symbol(str(list(m.dependent_variables)[0]))
+    dv = sympy.Symbol(m.datainfo.dv_column.name)
+    L = sympy.nsimplify(lloq)
+    # the new power thetas correspond by position
+    nb, np_ = new_names(m, mb), new_names(m, mp)
+    if len(nb) != len(np_):
+        rec('blq_power.parameters', 'violated', with_blq=nb, without=np_)
+        return
+    sub = {sympy.Symbol(a): sympy.Symbol(b) for a, b in zip(nb, np_)}
+    v, info = eq.check(db.env[y].xreplace(sub), dp.env[y], extra=[dv >= L])
+    rec('blq_power.above_lloq', V(v), **(dict(info, with_blq=str(db.env[y])[:300], without=str(dp.env[y])[:300])
+                                         if v != 'equal' else {}))
+
+
 def case_rates(m, spec, eq, rec):
     sympy, pm, semeq = _W['sympy'], _W['pm'], _W['semeq']
     if spec == 'fo_abs':
@@ -550,7 +582,8 @@ def case_covariate_sibling(m, spec, eq, rec, start=None):
 
 KINDS = dict(covariate=case_covariate, covariate_sibling=case_covariate_sibling, iiv=case_iiv, eta_transform=case_eta_transform, allometry=case_allometry,
              error=case_error, rates=case_rates, iiv_existing=case_iiv_existing,
-             iov=case_iov, iov_partial=case_iov_partial, ruv_iiv=case_ruv_iiv, time_varying=case_time_varying, blq=case_blq)
+             iov=case_iov, iov_partial=case_iov_partial, ruv_iiv=case_ruv_iiv, time_varying=case_time_varying, blq=case_blq,
+             blq_power=case_blq_power)
 
 
 def run_case(case):
@@ -635,6 +668,9 @@ def all_cases(thorough):
         cases.append((start, 'time_varying', 1.5))
         for meth in ('m3', 'm4'):
             cases.append((start, 'blq', (meth, 0.1)))
+            for pre in ('asis', 'proportional', 'combined'):
+                for blq_first in (True, False):
+                    cases.append((start, 'blq_power', (meth, 0.1, pre, blq_first)))
     return cases
 
 
